@@ -180,15 +180,15 @@ def mechanism(body, hist, te, tg):
     kind = body['kind']
     ctx = {int(k): v for k, v in body.get('ctx', {}).items()}
     coro_msg = False
-    if kind == 'coro' and 'generator raised StopIteration' in json.dumps(tg):
-        # PEP 479 conversion inside a coroutine: CPython says "coroutine raised StopIteration". Classify what remains
-        # after putting the wording aside.
-        tg2 = json.loads(json.dumps(tg).replace('generator raised StopIteration', 'coroutine raised StopIteration'))
-        if tg2 == te:
+    if kind == 'coro' and 'coroutine raised StopIteration' in json.dumps(te):
+        # PEP 479 conversion inside a coroutine: CPython says "coroutine raised StopIteration", compiled code "generator
+        # raised ...". Classify what remains after putting the wording aside (the reference is rewritten, because a
+        # compiled generator inside the coroutine legitimately says "generator raised" on both sides).
+        te2 = json.loads(json.dumps(te).replace('coroutine raised StopIteration', 'generator raised StopIteration'))
+        if te2 == tg:
             return 'pep479-message-coroutine', {}
-        if first_diff(te, tg2) != first_diff(te, tg) or True:
-            tg = tg2
-            coro_msg = True
+        te = te2
+        coro_msg = True
     k = first_diff(te, tg)
     if k is None:
         return kind + ':no-diff', {}
@@ -260,6 +260,8 @@ def mechanism(body, hist, te, tg):
     # operation, not before it
     multi_step = oe[0] == 'steps' and len(oe[1]) > 1
     finally_somewhere = any('finally' in c or '+f' in c for c in ctx.values())
+    deleg_in_handler_somewhere = any('|d=' in c and ('finally' in c or 'except' in c or '+f' in c or '+x' in c)
+                                     for c in ctx.values())
     thrown_before = set()
     for ent in te[1:k]:
         eo = _opkey(ent[0])
@@ -270,10 +272,6 @@ def mechanism(body, hist, te, tg):
             thrown_before.add('GeneratorExit')
         if eo.endswith('/t'):
             thrown_before.add('ValueError')
-    if kind == 'coro' and got_pep479 and exp_pep479 and \
-            json.loads(json.dumps(tg[k]).replace('generator raised StopIteration', 'coroutine raised StopIteration')) == te[k]:
-        # PEP 479 conversion inside a coroutine: CPython says "coroutine raised StopIteration"
-        return 'pep479-message-coroutine', info
     if feats and kinds <= {'ctx-missing', 'ctx-outer', 'ctx-other'}:
         # differences confined to __context__ / sys.exc_info() observations: explain every one of them
         def explain(f):
@@ -300,6 +298,12 @@ def mechanism(body, hist, te, tg):
                 # (N) the delegate raises on a plain resume: it is called outside the generator's exception context
                 if is_resume and fk == 'ctx-missing':
                     return 'delegate-exception-context-in-handler'
+            if fk == 'ctx-missing' and owner != 'log' and deleg_in_handler_somewhere and owner not in thrown_before \
+                    and ('ctx-missing', 'log') not in feats and not (is_throw and owner == THROWN_NAME.get(oparg)):
+                # (N, delayed) an exception that came out of a delegate while the generator was handling another one
+                # was parked by a finally clause that yields, and surfaces now: sys.exc_info() observations of this
+                # operation are all right, only that exception still lacks the context CPython gave it
+                return 'delegate-exception-context-in-handler'
             if fk == 'ctx-missing':
                 # (F) suspended by a yield inside a finally clause that runs because of an exception
                 if in_finally or unknown or (multi_step and finally_somewhere):
